@@ -73,10 +73,14 @@ def fingerprint(arr):
     return hashlib.sha1(a.tobytes()).hexdigest() + str(a.shape) + str(a.dtype)
 
 
-def source_values(aa, mask, data, noise, kernel, objects, diag, use_w, names):
-    """preloadable arrays computed on a separate, identical dataset with separate, identical linear objects"""
+def source_values(aa, mask, data, noise, kernel, objects, diag, use_w, names, donor=None):
+    """preloadable arrays computed on a separate, identical dataset with separate, identical linear objects
+    (donor: a list that receives those linear objects)"""
     mk, ds = make_dataset(aa, mask, data, noise, kernel)
-    inv = aa.Inversion(dataset=ds, linear_obj_list=make_objects(aa, mk, objects), settings=settings(aa, use_w, diag))
+    donor_objs = make_objects(aa, mk, objects)
+    if donor is not None:
+        donor.extend(donor_objs)
+    inv = aa.Inversion(dataset=ds, linear_obj_list=donor_objs, settings=settings(aa, use_w, diag))
     vals = {}
     for n in names:
         if n == "w_tilde":
@@ -189,8 +193,9 @@ def _gen_pieces(use_w, names_pool, must=None):
 def _pieces_check(mask, data, noise, kernel, objects, diag, use_w_tilde, slots):
     import autoarray as aa
     _, ref = run(aa, mask, data, noise, kernel, objects, diag, use_w_tilde)
+    donor = []
     try:
-        vals = source_values(aa, mask, data, noise, kernel, objects, diag, use_w_tilde, slots)
+        vals = source_values(aa, mask, data, noise, kernel, objects, diag, use_w_tilde, slots, donor=donor)
     except IndexError:
         # InversionImagingMapping._curvature_matrix_mapper_diag indexes a per-mapper block with the global
         # no_regularization_index_list; there is then no preloadable value to supply, so the statement's premise is empty
@@ -199,7 +204,21 @@ def _pieces_check(mask, data, noise, kernel, objects, diag, use_w_tilde, slots):
         return None
     pre = aa.Preloads(**vals)
     _, got = run(aa, mask, data, noise, kernel, objects, diag, use_w_tilde, preloads=pre)
-    return compare(ref, got, "preloads %r, use_w_tilde=%s" % (slots, use_w_tilde))
+    msg = compare(ref, got, "preloads %r, use_w_tilde=%s" % (slots, use_w_tilde))
+    if msg:
+        return msg
+    # the same preloads used by an inversion whose linear objects are PARTLY the very objects the preloads came from (kept
+    # between fits) and partly re-created equal ones -- in every split, and with all of them kept
+    mk, ds = make_dataset(aa, mask, data, noise, kernel)
+    for k in range(1, len(donor) + 1):
+        fresh = make_objects(aa, mk, objects)
+        for label, objs in (("first %d kept" % k, donor[:k] + fresh[k:]), ("last %d kept" % k, fresh[:len(donor) - k] + donor[len(donor) - k:])):
+            inv = aa.Inversion(dataset=ds, linear_obj_list=objs, settings=settings(aa, use_w_tilde, diag), preloads=pre)
+            msg = compare(ref, outputs_of(aa, inv), "preloads %r, use_w_tilde=%s, linear objects: %s from the preloading inversion, the rest re-created" % (
+                slots, use_w_tilde, label))
+            if msg:
+                return msg
+    return None
 
 
 _PDOC = """C15: 'Supplying preloaded quantities ... computed from an identical dataset and linear objects yields the same data
